@@ -26,14 +26,16 @@ theorem step_connect_ok (s s' : State) (t c x : Nat) (od : Bool) (h : stepCaller
   obtain ⟨_, rfl⟩ := h
   simp
 
-theorem step_visT (s s' : State) (t c : Nat) (e : Ev) (h : stepCaller s t c e = some s') (hp : (s.callers c).pc = .visT) :
+theorem step_visT (s s' : State) (t c : Nat) (e : Ev) (h : stepCaller s t c e = some s') (hid : s.cfg.ident = [])
+    (hp : (s.callers c).pc = .visT) :
     (∃ x, e = .isconn x true) ∧
       (s.lastError = true → ∀ n r, s.cbsReg = n :: r → (s'.callers c).pc = .cbs (n :: r)) := by
   cases e <;> simp only [stepCaller, hp] at h <;> try (simp at h)
   obtain ⟨hv, rfl⟩ := h
   subst hv
   refine ⟨⟨_, rfl⟩, fun hle n r hreg => ?_⟩
-  simp [hle, hreg]
+  rw [setC_same, startIdent_ni' _ _ hid]
+  simp [afterIdent, hle, hreg]
 
 theorem step_in_cbs (s s' : State) (t c n : Nat) (rest : List Nat) (e : Ev) (h : stepCaller s t c e = some s')
     (hp : (s.callers c).pc = .cbs (n :: rest)) :
@@ -194,7 +196,8 @@ theorem evAt_lt_of_some {log : Log} {i : Nat} {ev : Ev} (h : evAt log i = some e
   false_or_by_contra; rename_i hn
   rw [evAt_none log i (by omega)] at h; simp at h
 
-theorem cinv_step {cbs : List Nat} {log : Log} {s s' : State} (e : TEv) (hi : CInv cbs log s) (h : step s e = some s') :
+theorem cinv_step {cbs : List Nat} {log : Log} {s s' : State} (e : TEv) (hid : s.cfg.ident = []) (hi : CInv cbs log s)
+    (h : step s e = some s') :
     CInv cbs (log ++ [e]) s' := by
   have hlen : (log ++ [e]).length = log.length + 1 := by simp
   -- shared-state facts
@@ -325,7 +328,7 @@ theorem cinv_step {cbs : List Nat} {log : Log} {s s' : State} (e : TEv) (hi : CI
       cases hreg : s.cbsReg with
       | nil => rw [hreg] at hcount; simp at hcount
       | cons n r =>
-        have := (step_visT _ s' e.t c e.ev hst hvis).2 hle n r hreg
+        have := (step_visT _ s' e.t c e.ev hst hid hvis).2 hle n r hreg
         exact this
 
 theorem cinv_init (cfg : Cfg) (cbs : List Nat) : CInv cbs [] { cfg := cfg, cbsReg := cbs } := by
@@ -335,20 +338,20 @@ theorem cinv_init (cfg : Cfg) (cbs : List Nat) : CInv cbs [] { cfg := cfg, cbsRe
   · intro c i od h; simp [evAt] at h
   · intro c i od v _ h; simp [evAt] at h
 
-theorem cinv_exec_gen {cbs : List Nat} : ∀ (evs pre : List TEv) (s0 s : State), CInv cbs pre s0 → exec s0 evs = some s →
-    CInv cbs (pre ++ evs) s
-  | [], pre, s0, s, hv, h => by simp [exec] at h; subst h; simpa using hv
-  | e :: es, pre, s0, s, hv, h => by
+theorem cinv_exec_gen {cbs : List Nat} : ∀ (evs pre : List TEv) (s0 s : State), s0.cfg.ident = [] → CInv cbs pre s0 →
+    exec s0 evs = some s → CInv cbs (pre ++ evs) s
+  | [], pre, s0, s, _, hv, h => by simp [exec] at h; subst h; simpa using hv
+  | e :: es, pre, s0, s, hid, hv, h => by
     simp only [exec] at h
     cases hst : step s0 e with
     | none => simp [hst] at h
     | some s1 =>
       simp only [hst] at h
-      have := cinv_exec_gen es (pre ++ [e]) s1 s (cinv_step e hv hst) h
+      have := cinv_exec_gen es (pre ++ [e]) s1 s (by rw [step_keeps_cfg hst]; exact hid) (cinv_step e hid hv hst) h
       simpa using this
 
-theorem cinv_exec (cfg : Cfg) (cbs : List Nat) (evs : List TEv) (s : State)
+theorem cinv_exec (cfg : Cfg) (cbs : List Nat) (evs : List TEv) (s : State) (hid : cfg.ident = [])
     (h : exec { cfg := cfg, cbsReg := cbs } evs = some s) : CInv cbs evs s := by
-  simpa using cinv_exec_gen evs [] _ s (cinv_init cfg cbs) h
+  simpa using cinv_exec_gen evs [] _ s hid (cinv_init cfg cbs) h
 
 end Frappy.Comm
